@@ -186,6 +186,12 @@ func (s *reportSim) RunCycle() int {
 		return 0
 	}
 
+	// a battle between several warriors is decided (or has not started) while
+	// fewer than two of them are alive: there is nothing to run
+	if s.warriorCount > 1 && s.warriorLivingCount < 2 {
+		return 0
+	}
+
 	if s.warriorIndex == 0 {
 		s.Report(Report{Type: CycleStart, Cycle: int(s.cycleCount)})
 	}
